@@ -56,5 +56,45 @@ for _ in range(6):
     M = lambda k: sp.hyp1f1(a + k, b + k, zz)
     for got, want in ((ti * a / b * M(1) / M(0), Ej), (ti ** 2 * a * (a + 1) / (b * (b + 1)) * M(2) / M(0), Ej2)):
         worst = max(worst, abs(got / want - 1))
+# --- mutation references (normaliser ratios with Pochhammer symbols)
+def poch(x, k):
+    r = 1.0
+    for i in range(k):
+        r *= x + i
+    return r
+
+for _ in range(3):
+    ai, aj = rng.uniform(1.2, 4, 2); bi, bj = rng.uniform(0.3, 2, 2); y = int(rng.integers(1, 4)); mu = rng.uniform(0.2, 2)
+    dens = lambda tj, ti: (ti - tj) ** y * np.exp(-mu * (ti - tj)) * ti ** (ai - 1) * np.exp(-bi * ti) * tj ** (aj - 1) * np.exp(-bj * tj)
+    lim = (lambda ti: 0, lambda ti: ti)
+    Z = quad2(dens, lim)
+    a, b, c, t = aj, ai + aj + y, aj + y + 1, mu + bi
+    z = (mu - bj) / t
+    E = lambda p, q: poch(a, q) / poch(c, q) * poch(b, p + q) / t ** (p + q) * sp.hyp2f1(a + q, b + p + q, c + q, z) / sp.hyp2f1(a, b, c, z)
+    for (p, q) in ((2, 0), (1, 1), (0, 2), (1, 0), (0, 1)):
+        want = quad2(lambda tj, ti: ti ** p * tj ** q * dens(tj, ti), lim) / Z
+        worst = max(worst, abs(E(p, q) / want - 1))
+    # unphased mutation
+    dens = lambda tj, ti: (ti + tj) ** y * np.exp(-mu * (ti + tj)) * ti ** (ai - 1) * np.exp(-bi * ti) * tj ** (aj - 1) * np.exp(-bj * tj)
+    lim = (lambda ti: 0, lambda ti: np.inf)
+    Z = quad2(dens, lim)
+    a, b, c, t = aj, ai + aj + y, ai + aj, mu + bi
+    w = 1 - (mu + bj) / t
+    def R(di, dj):
+        k = di + dj - 1
+        return poch(a, dj) * poch(c - a, di) / poch(c, di + dj) * poch(b, k) / t ** k * sp.hyp2f1(a + dj, b + k, c + di + dj, w) / sp.hyp2f1(a, b, c, w)
+    for (di, dj) in ((1, 0), (2, 0), (0, 2), (3, 0), (0, 3)):
+        want = quad2(lambda tj, ti: ti ** di * tj ** dj / (ti + tj) * dens(tj, ti), lim) / Z
+        worst = max(worst, abs(R(di, dj) / want - 1))
+    # sideways mutation
+    ti = rng.uniform(0.5, 3)
+    d1 = lambda s: (ti + s) ** y * np.exp(-mu * (ti + s)) * s ** (aj - 1) * np.exp(-bj * s)
+    Z1 = integrate.quad(d1, 0, np.inf)[0]
+    a, b = aj, aj + y + 1
+    zz = ti * (mu + bj)
+    for k in (1, 2, 3):
+        want = integrate.quad(lambda s: s ** k / (ti + s) * d1(s), 0, np.inf)[0] / Z1 / ti ** (k - 1)
+        got = poch(a, k) * sp.hyperu(a + k, b + k - 1, zz) / sp.hyperu(a, b, zz)
+        worst = max(worst, abs(got / want - 1))
 print("worst relative deviation of the reference formulas from quadrature:", worst)
 assert worst < 1e-6
